@@ -15,8 +15,8 @@ import (
 	ht "github.com/ogen-go/ogen/http"
 	"github.com/ogen-go/ogen/middleware"
 
-	api "scratch/mapi"
 	"scratch/drv"
+	api "scratch/mapi"
 )
 
 type handler struct {
@@ -144,7 +144,7 @@ func runMedia() {
 	if err != nil {
 		drv.Fatal("NewServer: %v", err)
 	}
-	c, err := api.NewClient("http://x", api.WithClient(direct{srv}))
+	c, err := api.NewClient("http://x", api.WithClient(direct{srv: srv}))
 	if err != nil {
 		drv.Fatal("NewClient: %v", err)
 	}
@@ -352,7 +352,6 @@ func runMedia() {
 	drv.Stat("media_and_response_exchanges", total)
 	drv.Sample(map[string]any{"exchange": "PostJSON", "body": "V{S:\"s\", Na: OptNil{Set, Null}}", "scripted_response": "E4StatusCode{418, {Code:-1}} (4XX pattern)"})
 }
-
 
 // runFormFields: every member of a urlencoded / multipart body (strings, numbers, booleans, enums,
 // formats, arrays and objects under every `encoding` style), one member at a time over the same
